@@ -256,23 +256,9 @@ theorem isCompound_congr {a b : Node} (h : a.ctorIdx = b.ctorIdx) :
     a.isCompound = b.isCompound := by
   simp only [isCompound_ctorIdx, h]
 
-theorem rmCast1_nc (n : Node) (h : n.isCast = false) : n.rmCast1 = n := by
-  cases n
-  case cast => cases h
-  all_goals rfl
-
 theorem allowRhs_mod (r : Node) (c : Cov) (h : covN r = .ok c) :
-    allowRhs c.mod.rmCast1 = allowRhs r.rmCast1 := by
-  have hi := covN_ctorIdx r c h
-  cases r
-  case cast e =>
-    simp only [covN_cast, bind_eq_ok, Except.ok.injEq] at h
-    obtain ⟨a, ha, rfl⟩ := h
-    exact allowRhs_congr (covN_ctorIdx e a ha)
-  all_goals
-    have h1 : c.mod.isCast = false := by rw [isCast_ctorIdx, hi]; rfl
-    rw [rmCast1_nc _ h1]
-    exact allowRhs_congr hi
+    allowRhs c.mod.rmCast = allowRhs r.rmCast :=
+  allowRhs_congr (covN_rmCast_ctorIdx r c h)
 
 theorem cov_leaf (n : Node) (c : Cov) (h : covN n = .ok c) (hm : c.mod = n) (hi : c.inner = 0)
     (hu : c.up = 0) : covN c.mod = .ok ⟨0, 0, c.mod⟩ := by
